@@ -6,15 +6,15 @@ calls and, through a gate around the RPC client, right before the i-th RPC of a 
 model (ocaml/rawkv) replays every call on the layouts the served RPCs saw (results AND number of
 loop iterations must agree); independently a plain python sorted-dict reference evaluates the
 property oracles on the implementation's outputs."""
-import os, time, json, tempfile
+import os, time, json, tempfile, glob
 import vlib
 from vlib import Verdict
 
 PID = "C11"
 PROPS = [("theories/RawKV/Props.v", "RawKV.Props")]
 AREAS = ["theories/RawKV"]
-THEOREM_OF = {"sequence": "C11_sequence", "scan": "C11_scan", "rscan": "C11_reverse_scan", "drange": "C11_delete_range", "cksum": "C11_checksum",
-              "bget": "C11_batch_get_aligned", "bput": "C11_batch_put_last_wins", "bdel": "C11_batch_delete",
+THEOREM_OF = {"sequence": "C11_sequence", "scan": "C11_scan", "rscan": "C11_reverse_scan", "drange": "C11_delete_range / C11_delete_range_interrupted", "cksum": "C11_checksum",
+              "bget": "C11_batch_get_aligned", "bput": "C11_batch_put_last_wins / C11_batch_put_partial", "bdel": "C11_batch_delete / C11_batch_delete_partial",
               "cas": "C11_cas", "put": "C11_get_put_delete", "get": "C11_get_put_delete", "del": "C11_get_put_delete"}
 
 # ---------------------------------------------------------------- reference (independent of the Coq model)
@@ -35,11 +35,24 @@ def crc64(bs):
 
 
 def unhx(s):
-    return b"" if s in ("-", "", ".") else bytes.fromhex(s)
+    if s in ("-", "", "."):
+        return b""
+    if s[0] == "*":      # "*<n>x<hh>": n copies of one byte (big values of the sub-batching class)
+        n, c = s[1:].split("x")
+        return bytes([int(c, 16)]) * int(n)
+    return bytes.fromhex(s)
+
+
+def rle(b):
+    if len(b) >= 32 and b.count(b[:1]) == len(b):
+        return "*%dx%02x" % (len(b), b[0])
+    return None
 
 
 def hx(b):
-    return b.hex() if b else "-"
+    if not b:
+        return "-"
+    return rle(b) or b.hex()
 
 
 def hxs(l):
@@ -47,11 +60,11 @@ def hxs(l):
 
 
 def optv(v):
-    return "N" if v is None else "V" + v.hex()
+    return "N" if v is None else "V" + (rle(v) or v.hex())
 
 
 def lst(s):
-    return [] if s in (".", "none") else s.split(",")
+    return [] if s in (".", "none", "") else s.split(",")
 
 
 def in_range(k, s, e):
@@ -68,15 +81,27 @@ def region_of(layout, k):
 
 
 class Ref:
-    def __init__(self):
-        self.m = {}
+    """one ordered map per column family; API v2 changes nothing but the checksum input (prefix)"""
 
-    def expected(self, name, a):
-        m = self.m
+    def __init__(self, spec):
+        self.cfs = {}
+        self.nonatomic = bool(spec.get("nonatomic"))
+        self.pfx = b""
+        if spec.get("api") == "v2":
+            i = spec.get("ksid", 0)
+            self.pfx = b"r" + bytes([(i >> 16) & 255, (i >> 8) & 255, i & 255])
+
+    def cf(self, name):
+        return self.cfs.setdefault(name, {})
+
+    def expected(self, name, a, cf):
+        m = self.cf(cf)
         if name == "put":
             m[unhx(a[0])] = unhx(a[1]); return "ok"
         if name == "get":
             return "ok " + optv(m.get(unhx(a[0])))
+        if name == "ttl":
+            return "err unsupported"     # mocktikv has no CmdGetKeyTTL (and stores no ttl)
         if name == "del":
             m.pop(unhx(a[0]), None); return "ok"
         if name == "bput":
@@ -98,23 +123,26 @@ class Ref:
         if name == "scan":
             s, e, limit = unhx(a[0]), unhx(a[1]), int(a[2])
             ks = sorted(k for k in m if in_range(k, s, e))[:limit]
-            return "ok %s %s" % (hxs(ks), ",".join("V" + m[k].hex() for k in ks) if ks else ".")
+            return "ok %s %s" % (hxs(ks), ",".join(optv(m[k]) for k in ks) if ks else ".")
         if name == "rscan":
             s, e, limit = unhx(a[0]), unhx(a[1]), int(a[2])
             if len(s) == 0:      # documented: ReverseScan from "" is not supported (returns nothing)
                 return "ok . ."
             ks = sorted((k for k in m if e <= k < s), reverse=True)[:limit]
-            return "ok %s %s" % (hxs(ks), ",".join("V" + m[k].hex() for k in ks) if ks else ".")
+            return "ok %s %s" % (hxs(ks), ",".join(optv(m[k]) for k in ks) if ks else ".")
         if name == "cksum":
+            m = self.cf("CF_DEFAULT")    # the request carries no column family; the mock reads CF_DEFAULT
             s, e = unhx(a[0]), unhx(a[1])
             x = n = b = 0
             for k in m:
                 if in_range(k, s, e):
-                    x ^= crc64(k + m[k]); n += 1; b += len(k) + len(m[k])
+                    x ^= crc64(self.pfx + k + m[k]); n += 1; b += len(self.pfx) + len(k) + len(m[k])
             return "ok %x %d %d" % (x, n % 2**64, b % 2**64)
         if name == "cas":
+            if self.nonatomic:
+                return "err atomic"
             k, nv = unhx(a[0]), unhx(a[2])
-            prev = None if a[1] == "N" else bytes.fromhex(a[1][1:])
+            prev = None if a[1] == "N" else unhx(a[1][1:])
             cur = m.get(k)
             if cur == prev:
                 m[k] = nv
@@ -123,10 +151,52 @@ class Ref:
         return "unknown-op"
 
 
-def check_op(ref, name, a, lays, bats, impl):
+def check_failed_call(ref, name, a, cf, lays, bats):
+    """a batch put / batch delete / delete-range whose i-th request was answered with an error:
+    the call reports the error, and what it leaves behind is what C11_batch_put_partial /
+    C11_batch_delete_partial / C11_delete_range_interrupted allow. The reference map takes the
+    effect of the requests that were served (observed at the wire)."""
+    fails = []
+    m = ref.cf(cf)
+    if name == "bput":
+        ks, vs = lst(a[0]), lst(a[1])
+        last = {}
+        for k, v in zip(ks, vs):
+            last[unhx(k)] = unhx(v)
+        for b in bats:
+            for it in lst(b):
+                k, v, _t = it.split(":")
+                k, v = unhx(k), unhx(v)
+                if k not in last or last[k] != v:     # every key: unchanged or ITS last value of this call
+                    fails.append(("partial-batch-put-old-or-own-last-value", "", "served pair %s:%s" % (hx(k), hx(v))))
+                m[k] = v
+    elif name == "bdel":
+        want = set(unhx(k) for k in lst(a[0]))
+        for b in bats:
+            for k in lst(b):
+                if unhx(k) not in want:
+                    fails.append(("partial-batch-delete-only-requested-keys", "", hx(unhx(k))))
+                m.pop(unhx(k), None)
+    elif name == "drange":
+        s, e = unhx(a[0]), unhx(a[1])
+        cur = s
+        for b in bats:          # served requests delete [s,c1), [c1,c2), ...: a prefix of [s,e)
+            bs, be = [unhx(x) for x in b.split(":")]
+            if bs != cur or len(be) == 0 or not (cur < be) or (len(e) > 0 and be > e):
+                fails.append(("interrupted-delete-range-is-a-prefix", "", "request [%s,%s) at cursor %s" % (hx(bs), hx(be), hx(cur))))
+            for k in [k for k in m if bs <= k < be]:
+                del m[k]
+            cur = be
+    return fails
+
+
+def check_op(ref, name, a, cf, lays, bats, impl):
     """returns list of (oracle name, expected, detail) failures for one call"""
     fails = []
-    exp = ref.expected(name, a)
+    if impl == "err injected" and "FAIL" in lays:
+        return check_failed_call(ref, name, a, cf, lays, bats)
+    lays = [l for l in lays if l != "FAIL"]
+    exp = ref.expected(name, a, cf)
     if name in ("scan", "rscan"):
         f = impl.split(" ")
         if f[0] != "ok" or len(f) != 3:
@@ -137,14 +207,14 @@ def check_op(ref, name, a, lays, bats, impl):
             fails.append(("scan-at-most-limit", exp, "%d > %d" % (len(ks), limit)))
         if name == "scan":
             if any(not (x < y) for x, y in zip(ks, ks[1:])):
-                fails.append(("scan-strictly-ascending", exp, f[1]))
+                fails.append(("scan-strictly-ascending", exp, f[1][:200]))
             if any(not in_range(k, s, e) for k in ks):
-                fails.append(("scan-within-range", exp, f[1]))
+                fails.append(("scan-within-range", exp, f[1][:200]))
         else:
             if any(not (x > y) for x, y in zip(ks, ks[1:])):
-                fails.append(("rscan-strictly-descending", exp, f[1]))
+                fails.append(("rscan-strictly-descending", exp, f[1][:200]))
             if any(not (e <= k < s) for k in ks):
-                fails.append(("rscan-within-range", exp, f[1]))
+                fails.append(("rscan-within-range", exp, f[1][:200]))
         ef = exp.split(" ")
         if f[1] != ef[1]:
             fails.append(("scan-first-limit-pairs-of-range", exp, "keys differ"))
@@ -154,16 +224,24 @@ def check_op(ref, name, a, lays, bats, impl):
     if impl != exp:
         fails.append((name + "-equals-ordered-map", exp, "result differs"))
     # grouping admissibility for batch calls
-    if name in ("bget", "bdel", "bput") and impl == "ok" or (name == "bget" and impl.startswith("ok")):
+    if name in ("bget", "bdel", "bput") and impl.startswith("ok"):
         got = []
         for i, b in enumerate(bats):
-            items = b.split(",") if b not in ("", ".") else []
+            items = lst(b)
             keys = [unhx(it.split(":")[0]) for it in items]
             got += items
             if name != "bdel" and i < len(lays):   # mock executes RawBatchDelete even on a region error
                 lay = [unhx(x) for x in lst(lays[i])]
                 if len(set(region_of(lay, k) for k in keys)) > 1:
-                    fails.append(("batch-within-one-region", exp, "batch %s under layout %s" % (b, lays[i])))
+                    fails.append(("batch-within-one-region", exp, "batch %s under layout %s" % (b[:200], lays[i])))
+            # sub-batch limits (kvrpc.AppendKeyBatches: count > 512 is tested before adding => 513 keys;
+            # AppendBatches: size >= 16 KB is tested before adding)
+            if name in ("bget", "bdel") and len(keys) > 513:
+                fails.append(("batch-at-most-513-keys", exp, "%d keys" % len(keys)))
+            if name == "bput" and len(items) > 1:
+                sz = sum(len(unhx(it.split(":")[0])) + len(unhx(it.split(":")[1])) for it in items[:-1])
+                if sz >= 16384:
+                    fails.append(("batch-put-below-16KB-before-last-pair", exp, "%d bytes before the last pair" % sz))
         if name == "bput":
             ks, vs, ts = lst(a[0]), lst(a[1]), (lst(a[2]) if a[2] != "." else None)
             last = {}
@@ -173,18 +251,69 @@ def check_op(ref, name, a, lays, bats, impl):
         else:
             want = sorted(lst(a[0]))
         if sorted(got) != want:
-            fails.append(("batches-partition-the-request", exp, "sent %s want %s" % (sorted(got), want)))
+            fails.append(("batches-partition-the-request", exp, "sent %s want %s" % (str(sorted(got))[:300], str(want)[:300])))
     return fails
 
 
 def parse_op(line):
     f = line.split("\t")
-    li = next(i for i, x in enumerate(f) if x.startswith("L="))
-    args = f[4:li]
+    ci = next(i for i, x in enumerate(f) if x.startswith("C="))
+    args = f[4:ci]
+    cf = f[ci][2:]
+    li = ci + 1
     lays = f[li][2:].split(";") if f[li] != "L=none" else []
     bats = f[li + 1][2:].split(";") if f[li + 1] != "B=none" else []
     n = f[li + 2][2:].split(",")
-    return int(f[1]), int(f[2]), f[3], args, lays, bats, (int(n[0]), int(n[1])), f[-1]
+    return int(f[1]), int(f[2]), f[3], args, cf, lays, bats, (int(n[0]), int(n[1])), f[-1]
+
+
+def check_history(h):
+    """h = lines of one concurrent scenario: ['init', key, optv] / ['op', worker, inv, ret, kind, key, prev, new, '=>', result].
+    Per key (registers are independent) search a linearization: Wing-Gong DFS with memoisation.
+    Returns (failing history or None, number of ops)."""
+    init, ops = {}, {}
+    n = 0
+    for f in h:
+        if f[0] == "init":
+            init[f[1]] = None if f[2] == "N" else unhx(f[2][1:])
+        elif f[0] == "op":
+            n += 1
+            ops.setdefault(f[5], []).append((int(f[2]), int(f[3]), f[4], f[6], f[7], f[9]))
+    for key, lst_ in ops.items():
+        if any(o[5].startswith("err") or o[5].startswith("panic") for o in lst_):
+            return ([key] + [list(map(str, o)) for o in lst_], n)
+
+        def step(state, o):
+            kind, prev, nv, res = o[2], o[3], o[4], o[5]
+            if kind == "get":
+                return state if res == "ok " + optv(state) else "BAD"
+            if kind == "put":
+                return unhx(nv)
+            if kind == "del":
+                return None
+            want = None if prev == "N" else unhx(prev[1:])
+            if state == want:
+                return unhx(nv) if res == "ok %s true" % optv(state) else "BAD"
+            return state if res == "ok %s false" % optv(state) else "BAD"
+        seen = set()
+
+        def dfs(rem, state):
+            if not rem:
+                return True
+            keym = (rem, state)
+            if keym in seen:
+                return False
+            seen.add(keym)
+            minret = min(lst_[i][1] for i in rem)
+            for i in rem:
+                if lst_[i][0] < minret:       # may be linearized first: invoked before any other returned
+                    ns = step(state, lst_[i])
+                    if ns != "BAD" and dfs(rem - frozenset([i]), ns):
+                        return True
+            return False
+        if not dfs(frozenset(range(len(lst_))), init.get(key)):
+            return ([key, "init=" + optv(init.get(key))] + [list(map(str, o)) for o in lst_], n)
+    return (None, n)
 
 
 def crashed(v, exe, env, rc, out):
@@ -227,16 +356,27 @@ def main(tier, replay):
     stats = {"ops": 0, "oracle_evals": 0, "classes": {}, "served_rpcs": 0, "region_errors": 0, "multi_region_calls": 0,
              "calls_with_region_error": 0}
     samples, distinct, fallback = [], set(), []
-    oracle_fail, mism = [], []
+    oracle_fail, mism, conc_fail = [], [], []
     if not (okg and okm):
         v.violation({"kind": "harness-build", "correspondence": "RawKV driver/model build against the current tree",
                      "error": (exe if not okg else modelrun)}, has_input=False)
     else:
         chunks = [0] if (tier == "quick" or replay) else list(range(12))
+        corpus = sorted(glob.glob(os.path.join(vlib.VERIF, "corpus", PID, "*.jsonl")))
+        if not replay and corpus:
+            # regression specs (one JSON sequence per line), replayed in every tier
+            allc = tempfile.NamedTemporaryFile("w", suffix=".jsonl", delete=False)
+            for cfile in corpus:
+                allc.write(open(cfile).read().rstrip("\n") + "\n")
+            allc.close()
+            chunks = chunks + ["corpus"]
         specs = {}
+        hist = {}
         for chunk in chunks:
             env["VERIF_CHUNK"] = str(chunk)
             cmd = [exe]
+            if chunk == "corpus":
+                cmd = [exe, "replay", allc.name]
             if replay:
                 case = json.load(open(replay)).get("case", {})
                 tf = tempfile.NamedTemporaryFile("w", suffix=".jsonl", delete=False)
@@ -253,23 +393,34 @@ def main(tier, replay):
             for line in out.splitlines():
                 if line.startswith("SEQ\t"):
                     f = line.split("\t", 2)
-                    ref = Ref(); cur_spec = json.loads(f[2]); cur_key = (chunk, int(f[1]))
+                    cur_spec = json.loads(f[2]); cur_key = (chunk, int(f[1])); ref = Ref(cur_spec)
+                elif line.startswith("H\t"):
+                    f = line.split("\t")
+                    hist.setdefault((chunk, int(f[1])), []).append(f[2:])
+                    if f[2] == "end":
+                        stats["conc_scenarios"] = stats.get("conc_scenarios", 0) + 1
+                        bad = check_history(hist.pop((chunk, int(f[1]))))
+                        stats["conc_ops"] = stats.get("conc_ops", 0) + bad[1]
+                        if bad[0]:
+                            conc_fail.append((chunk, int(f[1]), bad[0]))
                 elif line.startswith("OP\t"):
-                    sid, idx, name, args, lays, bats, (nrpc, nerr), impl = parse_op(line)
+                    sid, idx, name, args, cf, lays, bats, (nrpc, nerr), impl = parse_op(line)
                     sid = (chunk, sid)
                     stats["ops"] += 1
                     stats["served_rpcs"] += len(lays); stats["region_errors"] += nerr
                     stats["multi_region_calls"] += 1 if len(lays) > 1 else 0
                     stats["calls_with_region_error"] += 1 if nerr else 0
-                    cls = name + (":multi" if len(lays) > 1 else "") + (":rerr" if nerr else "")
+                    cls = name + (":multi" if len(lays) > 1 else "") + (":rerr" if nerr else "") + (":failed" if "FAIL" in lays else "") \
+                        + (":big" if len(line) > 4000 else "") + (":cf" if cf != "CF_DEFAULT" else "") \
+                        + (":v2" if cur_spec.get("api") == "v2" else "") + (":nonatomic" if cur_spec.get("nonatomic") else "")
                     stats["classes"][cls] = stats["classes"].get(cls, 0) + 1
                     if nrpc:
-                        distinct.add(hash((name, tuple(args), tuple(lays), impl)))
+                        distinct.add(hash((name, tuple(args), cf, tuple(lays), impl)))
                         if len(fallback) < 6:
                             fallback.append(line[:400])
                     if len(samples) < 6 and len(lays) > 1 and nerr and stats["ops"] % 7 == 0:
                         samples.append(line[:400])
-                    fails = check_op(ref, name, args, lays, bats, impl)
+                    fails = check_op(ref, name, args, cf, lays, bats, impl)
                     stats["oracle_evals"] += 1
                     for (oname, exp, detail) in fails:
                         specs[sid] = cur_spec
@@ -303,6 +454,11 @@ def main(tier, replay):
                              "impl": impl, "expected_by_ordered_map": exp, "model": mm[0][3] if mm else "agrees-with-impl",
                              "detail": detail,
                              "what": "rawkv.Client result differs from the same operation on one ordered map"})
+            for (chunk, sid, h) in conc_fail[:2]:
+                v.violation({"kind": "property-oracle", "oracle": "concurrent-calls-linearizable", "theorem": "C11_cas_interleaving",
+                             "case": {"history": h}, "impl": "no interleaving of the calls (respecting invoke/return order) gives these results on one map",
+                             "expected_by_ordered_map": "some linearization exists",
+                             "what": "concurrent CAS/get/put/delete callers on one rawkv.Client: history not linearizable"})
             bad_ops = set((s, i) for (s, i, *_r) in oracle_fail)
             rest = [m for m in mism if (m[0], m[1]) not in bad_ops]
             if rest and not oracle_fail:
@@ -323,12 +479,14 @@ def main(tier, replay):
         v.violation({"kind": "proof", "theorem_or_file": gate["problems"], "what": "Coq obligations no longer check"}, has_input=False)
     if not samples:
         samples = fallback[:6]
-    cov.update(evaluations=stats["ops"] + stats["oracle_evals"], distinct_nontrivial=len(distinct),
-               rule="random op sequences (put/get/del/batch put,get,del with duplicates/delete-range/scan/reverse scan/checksum/cas) over a small key pool whose keys double as split keys, bounds = pool keys, key+00, empty; split/merge/leader-transfer between calls and before the i-th RPC of a call (i<=4); directed sequences for CAS absent/empty, BatchGet absent/duplicate keys, repeated split+merge epochs, limits hitting borders; distinct = distinct (op, args, serving layouts, result) with >= 1 RPC",
+    cov.update(evaluations=stats["ops"] + stats["oracle_evals"] + stats.get("conc_scenarios", 0), distinct_nontrivial=len(distinct),
+               rule="random op sequences (put/get/del/batch put,get,del with duplicates/delete-range/scan/reverse scan/checksum/cas) over a small key pool whose keys double as split keys, bounds = pool keys, key+00, empty; split/merge/leader-transfer between calls and before the i-th RPC of a call (i<=4); sequence classes: plain, column families, sub-batching (600-1500 keys / 16 KB+ of pairs in one region, exact batch comparison after a cache warm-up), failing i-th request of batch put / batch delete / delete-range, API v2 on one region, non-atomic mode; directed sequences (CAS absent/empty, BatchGet absent/duplicate/deleted keys, never-written family, split+merge epochs, limits on borders, 513/514 keys, exactly 16384 bytes, failures mid-call) + corpus/C11 regression specs; concurrent CAS/get/put/delete callers with a linearizability search; distinct = distinct (op, args, family, serving layouts, result) with >= 1 RPC",
                samples=samples[:6], traces_validated_against_impl=stats["ops"], input_distribution=stats["classes"],
                served_rpcs=stats["served_rpcs"], region_errors_injected=stats["region_errors"],
                multi_region_calls=stats["multi_region_calls"], calls_with_region_error=stats["calls_with_region_error"],
-               model_mismatches=len(mism), oracle_failures=len(oracle_fail))
+               model_mismatches=len(mism), oracle_failures=len(oracle_fail) + len(conc_fail),
+               concurrent_scenarios=stats.get("conc_scenarios", 0), concurrent_calls=stats.get("conc_ops", 0),
+               corpus_files=[os.path.basename(c) for c in corpus])
     rc = v.finish()
     vlib.write_evidence(PID, cov, t0, violations=len(v.violations), level="proof",
                         assumptions=["one client, no concurrent writers during a call (the store is fixed while a call's partial requests run)",
